@@ -187,6 +187,7 @@ func runC01(c *Ctx) []Violation {
 		}
 	}
 	records := 0
+	var kept []run.Entry
 	afterTerminal := -1
 	extra := 0
 	for step := 0; step < 460; step++ {
@@ -209,6 +210,9 @@ func runC01(c *Ctx) []Violation {
 			}
 			if e.Class == run.ClsPanic {
 				break
+			}
+			if e.Class == run.ClsRecord && len(kept) < 64 {
+				kept = append(kept, e)
 			}
 			c.Count("result."+e.Class, 1)
 			if wasTerminal {
@@ -266,6 +270,11 @@ func runC01(c *Ctx) []Violation {
 			if msg, _ := raw("terminal"); msg != "" {
 				return fail(msg)
 			}
+		}
+	}
+	for i := range kept {
+		if !kept[i].Intact() {
+			return fail(fmt.Sprintf("the JSON bytes returned by an earlier successful Read were modified by a later call (returned %s)", clipS(kept[i].Out, 120)))
 		}
 	}
 	c.Events += int64(rd.Stats.Reads)
